@@ -71,6 +71,9 @@ class Gen {
       [objs.length ? 1 : 0, () => `(${r.pick(objs).name}.p${r.int(3)} += ${sub()})`],
       [objs.length ? 1 : 0, () => `${r.pick(objs).name}.s${this.id()}`],
       [1, () => `(w.f${this.id()}(), ${sub()})`],
+      [1.5, () => `(${sub()}, ${sub()})`], // comma sequences whose earlier expressions are instrumented too
+      [strs.length ? 1 : 0, () => { const v = r.pick(strs).name; return `(${v} = ${sub()}, ${v})` }],
+      [0.7, () => inFn(() => `w.cb${this.id()}(function (it, sep = ${sub()}) { return sep + it })`)],
       [1, () => `typeof ${this.atom()}`],
       [1.5, () => this.optional(d)],
       [1.5, () => this.protoCall(d)],
@@ -83,7 +86,17 @@ class Gen {
       [this.inAsync ? 2 : 0, () => `(await ${sub()})`],
       [0.5, () => `aloneMethod(${sub()})`],
       [0.5, () => `[${sub()}, ${sub()}].join(${this.atom()})`],
-      [0.5, () => `new w.C${this.id()}(${sub()}).s1`]
+      [0.5, () => `new w.C${this.id()}(${sub()}).s1`],
+      [0.6, () => `w.tag${this.id()}\`a\${${sub()}}b\``],
+      [0.6, () => `(w.u${this.id()} || ${sub()})`],
+      [0.5, () => `${this.recvForReplace()}.replace(/⟦|x/g, ${sub()})`],
+      [0.5, () => `[...[${sub()}, ${this.atom()}]].join(${this.atom()})`],
+      [0.4, () => `(${this.atom()} in w.o${this.id()} ? ${sub()} : ${sub()})`],
+      [0.4, () => `String(${sub()}).length + ${sub()}`],
+      [0.4, () => `(2 ** w.i${this.id()}) + ${sub()} + (w.i${this.id()} | 1)`],
+      [strs.length ? 0.8 : 0, () => `(${r.pick(strs).name} ${r.pick(['||=', '??=', '&&='])} ${sub()})`],
+      [0.5, () => inFn(() => `(function () { return arguments[0] + arguments.length })(${sub()}, 1)`)],
+      [0.5, () => inFn(() => `(({ k${this.id()} = ${sub()} }) => k${this.n})({})`)]
     ])()
   }
 
@@ -102,6 +115,8 @@ class Gen {
     }
     return s + '`'
   }
+
+  recvForReplace () { const strs = this.locals('str'); return strs.length ? this.rng.pick(strs).name : `w.s${this.id()}` }
 
   recv (d) {
     const r = this.rng
@@ -235,6 +250,25 @@ class Gen {
         this.inGen = g0; this.inAsync = a0
         this.emit(indent, `for (const f of ${fs}.reverse()) w.out(f());`)
       }],
+      [0.6, () => { // accessor object: getter/setter bodies are instrumented blocks of their own
+        const ob = 'ob' + this.id(); const g0 = this.inGen; const a0 = this.inAsync; this.inGen = false; this.inAsync = false
+        this.emit(indent, `const ${ob} = { get p() { return ${this.expr(2)} }, set p(v) { w.out(v + ${this.expr(2)}) }, m(x) { return this.p + x } };`)
+        this.inGen = g0; this.inAsync = a0
+        this.emit(indent, `${ob}.p = ${this.expr(2)}; w.out(${ob}.m(${this.atom()}));`)
+      }],
+      [0.6, () => { // inheritance with super calls through instrumented methods
+        const A1 = 'A' + this.id(); const B1 = 'B' + this.id(); const g0 = this.inGen; const a0 = this.inAsync; this.inGen = false; this.inAsync = false
+        this.emit(indent, `class ${A1} { constructor(v) { this.v = v + ${this.expr(2)} } m(p) { return this.v + p } static make(x) { return new this(x) } }`)
+        this.emit(indent, `class ${B1} extends ${A1} { constructor(v) { super(v + ${this.atom()}); this.w2 = \`\${v}\` } m(p) { return super.m(p) + ${this.expr(2)} + this.w2 } }`)
+        this.inGen = g0; this.inAsync = a0
+        this.emit(indent, `w.out(${B1}.make(${this.expr(2)}).m(${this.atom()}));`)
+      }],
+      [0.6, () => { const a = 'd' + this.id(); const b = 'd' + this.id(); this.emit(indent, `const { ${a} = ${this.expr(2)}, q: [${b} = ${this.expr(2)}] = [] } = w.o${this.id()}.u1 ?? {};`); this.scopes[this.scopes.length - 1].push({ name: a, kind: 'str' }, { name: b, kind: 'str' }) }],
+      [0.6, () => { const c = 'c' + this.id(); this.emit(indent, `let ${c} = 0; do { w.out(${this.expr(2)}); if (${c} > 0) continue } while (${c}++ < 1)`) }],
+      [0.5, () => { const i = 'i' + this.id(); const l = 'lp' + this.id(); this.emit(indent, `${l}: for (let ${i} = 0; ${i} < 3; ${i}++) { if (${i} === 1) continue ${l}; w.out(${this.expr(2)} + ${i}); if (${i} === 2) break ${l} }`) }],
+      [0.5, () => { this.emit(indent, `switch (w.i${this.id()}) { case 0: w.out(${this.expr(2)}); case 1: w.out(${this.expr(2)}); break; case 2: { w.out(${this.expr(2)}) } default: w.out(${this.atom()}) }`) }],
+      [0.5, () => { const k = 'k' + this.id(); this.emit(indent, `for (const ${k} in { a: 1, b: 2 }) w.out(${k} + ${this.expr(2)});`) }],
+      [0.5, () => { this.emit(indent, `try { w.out(${this.expr(2)}); w.fthrow${this.id()}() } catch { w.out(${this.expr(2)}) }`) }],
       [0.5, () => { const k = 'K' + this.id(); const g0 = this.inGen; const a0 = this.inAsync; this.inGen = false; this.inAsync = false; this.emit(indent, `class ${k} { m(p) { return ${this.expr(2)} + p } static sm() { return ${this.expr(2)} } }`); this.inGen = g0; this.inAsync = a0; this.emit(indent, `w.out(new ${k}().m(${this.atom()}) + ${k}.sm());`) }]
     ])()
   }
